@@ -20,61 +20,75 @@ Definition alloc (h : heap) (c : cell) : heap * hv := (h ++ [c], HRef (length h)
 Fixpoint hattr (k : String.string) (o : hobj) : hv :=
   match o with [] => HNone | (k', v) :: t => if String.eqb k k' then v else hattr k t end.
 
+(** copy every value of an association list, threading the heap ([cp] is the copier for one value) *)
+Fixpoint copy_kvs {K : Type} (cp : heap -> hv -> option (heap * hv)) (h : heap) (l : list (K * hv)) : option (heap * list (K * hv)) :=
+  match l with
+  | [] => Some (h, [])
+  | (k, v) :: t =>
+    match cp h v with
+    | None => None
+    | Some (h1, v') => match copy_kvs cp h1 t with
+                       | None => None
+                       | Some (h2, t') => Some (h2, (k, v') :: t')
+                       end
+    end
+  end.
+(** rebuild an object field by field as a table prescribes: target = mode(self.source) *)
+Fixpoint copy_fields (sh dp : heap -> hv -> option (heap * hv)) (h : heap) (src : hobj) (fields : list cpfield) : option (heap * hobj) :=
+  match fields with
+  | [] => Some (h, [])
+  | c :: t =>
+    if String.eqb (csrc c) "" then copy_fields sh dp h src t            (* a constant keyword: nothing of the source involved *)
+    else
+      let v := hattr (csrc c) src in
+      match (match cmode c with CPlain => Some (h, v) | CShallow => sh h v | CDeep => dp h v end) with
+      | None => None
+      | Some (h1, v') => match copy_fields sh dp h1 src t with
+                         | None => None
+                         | Some (h2, t') => Some (h2, (ctgt c, v') :: t')
+                         end
+      end
+  end.
+
 Section Copy.
 Variable specs : list cls_spec.
 
-(** copy.copy (deep = false) / copy.deepcopy (deep = true) of one value.
+(** copy.copy (deep = false) / copy.deepcopy (deep = true) of one value; [None]: out of fuel or a dangling reference.
     ndarray.__copy__ and ndarray.__deepcopy__ both duplicate the buffer; a shallow dict copy keeps the value references;
     a nested pybrops object is copied by its own __copy__/__deepcopy__ (table-driven). *)
-Fixpoint copy_hv (fuel : nat) (deep : bool) (h : heap) (v : hv) : heap * hv :=
+Fixpoint copy_hv (fuel : nat) (deep : bool) (h : heap) (v : hv) : option (heap * hv) :=
   match fuel with
-  | O => (h, v)
+  | O => None
   | S n =>
     match v with
     | HRef l =>
       match nth_error h l with
-      | Some (CArr x) => alloc h (CArr x)
+      | Some (CArr x) => Some (alloc h (CArr x))
       | Some (CDict d) =>
-        if deep then
-          let '(h1, d') := fold_left (fun acc kv => let '(hh, out) := acc in
-                                                    let '(hh', v') := copy_hv n true hh (snd kv) in (hh', out ++ [(fst kv, v')]))
-                                     d (h, []) in
-          alloc h1 (CDict d')
-        else alloc h (CDict d)
-      | Some (COpaque t p) => alloc h (COpaque t p)
+        if deep then match copy_kvs (copy_hv n true) h d with
+                     | Some (h1, d') => Some (alloc h1 (CDict d'))
+                     | None => None
+                     end
+        else Some (alloc h (CDict d))
+      | Some (COpaque t p) => Some (alloc h (COpaque t p))
       | Some (CObj cn fs) =>
         match find_spec cn specs with
-        | None => (h, v)
+        | None => None
         | Some s =>
-          let fields := if deep then dp_ctor s ++ dp_post s else cp_ctor s ++ cp_post s in
-          let '(h1, fs') := fold_left (fun acc c => let '(hh, out) := acc in
-                                                    if String.eqb (csrc c) "" then (hh, out)
-                                                    else let src := hattr (csrc c) fs in
-                                                         let '(hh', v') := match cmode c with
-                                                                           | CPlain => (hh, src)
-                                                                           | CShallow => copy_hv n false hh src
-                                                                           | CDeep => copy_hv n true hh src end in
-                                                         (hh', out ++ [(ctgt c, v')]))
-                                      fields (h, []) in
-          alloc h1 (CObj cn fs')
+          match copy_fields (copy_hv n false) (copy_hv n true) h fs (if deep then dp_ctor s ++ dp_post s else cp_ctor s ++ cp_post s) with
+          | Some (h1, fs') => Some (alloc h1 (CObj cn fs'))
+          | None => None
+          end
         end
-      | None => (h, v)
+      | None => None
       end
-    | _ => (h, v)
+    | _ => Some (h, v)
     end
   end.
 
 (** __copy__ / __deepcopy__ of a top-level object of class [s] *)
-Definition class_copy (fuel : nat) (deep : bool) (s : cls_spec) (h : heap) (o : hobj) : heap * hobj :=
-  fold_left (fun acc c => let '(hh, out) := acc in
-                          if String.eqb (csrc c) "" then (hh, out)
-                          else let src := hattr (csrc c) o in
-                               let '(hh', v') := match cmode c with
-                                                 | CPlain => (hh, src)
-                                                 | CShallow => copy_hv fuel false hh src
-                                                 | CDeep => copy_hv fuel true hh src end in
-                               (hh', out ++ [(ctgt c, v')]))
-            (if deep then dp_ctor s ++ dp_post s else cp_ctor s ++ cp_post s) (h, []).
+Definition class_copy (fuel : nat) (deep : bool) (s : cls_spec) (h : heap) (o : hobj) : option (heap * hobj) :=
+  copy_fields (copy_hv fuel false) (copy_hv fuel true) h o (if deep then dp_ctor s ++ dp_post s else cp_ctor s ++ cp_post s).
 End Copy.
 
 (** ** observation (what the harness sees of an object), one container level deep *)
@@ -144,7 +158,7 @@ Definition agree_copy (specs : list cls_spec) (s : cls_spec) (deep : bool) (h : 
            (changed : list String.string)                             (* observed names of the source that changed after mutating the copy *)
            (watch : list (String.string * (String.string * str * String.string)))   (* observed name -> (attr, dict key, sub-field) *)
            (skip : list String.string) : bool :=
-  let '(h1, c) := class_copy specs 4 deep s h o in
+  match class_copy specs 4 deep s h o with None => false | Some (h1, c) =>
   let get (hh : heap) (ob : hobj) (w : String.string * str * String.string) : option oval :=
       let '(a, k, kf) := w in
       if is_nil k && String.eqb kf "" then resolve1 hh (hattr a ob) else resolve1 hh (sub_hv hh (hattr a ob) k kf) in
@@ -153,4 +167,5 @@ Definition agree_copy (specs : list cls_spec) (s : cls_spec) (deep : bool) (h : 
                        Bool.eqb sh (if is_nil k && String.eqb kf "" then same_ref (hattr a o) (hattr a c)
                                     else same_ref (sub_hv h1 (hattr a o) k kf) (sub_hv h1 (hattr a c) k kf))) shares
   && (let h2 := poison_all h1 c skip in
-      forallb (fun nw => Bool.eqb (negb (opt_oval_eqb (get h2 o (snd nw)) (get h o (snd nw)))) (smem (fst nw) changed)) watch).
+      forallb (fun nw => Bool.eqb (negb (opt_oval_eqb (get h2 o (snd nw)) (get h o (snd nw)))) (smem (fst nw) changed)) watch)
+  end.
